@@ -90,6 +90,9 @@ def gen_plan(rng, index, tier):
             steps.append({"op": "coldarea", "level": "block", "idx": rng.randrange(1000), "nuc": 0, "nuc2": 0, "f": 1.0, "frac": 0.1, "mass": 1.0})
             continue
         if rng.random() < 0.04:
+            steps.append({"op": "rmblock", "level": "assembly", "idx": rng.randrange(1000), "nuc": 0, "nuc2": 0, "f": 1.0, "frac": 0.1, "mass": 1.0})
+            continue
+        if rng.random() < 0.04:
             steps.append({"op": "takeout", "level": "core", "idx": rng.randrange(1000), "nuc": 0, "nuc2": 0, "f": 1.0, "frac": 0.1, "mass": 1.0})
             continue
         if bp["geom"] != "cartesian" and sym != "full" and rng.random() < 0.12:
@@ -221,6 +224,14 @@ class Runner:
                         self.fail("C02.additivity", f"step {k}: block mass of {nuc} {float(b.getMass(nuc))} != sum over components {b_mass.get(nuc, 0.0)}", what="mass", level="block")
                     if not rel(float(n_b) * b_vol, b_atoms.get(nuc, 0.0)):
                         self.fail("C02.additivity", f"step {k}: block density x volume of {nuc} {float(n_b) * b_vol} != sum over components {b_atoms.get(nuc, 0.0)}", what="atoms", level="block")
+                # selections that name nothing that is there: an empty list, a nuclide the block does not hold
+                for spec, label in (([], "[]"), (["CM247"], "['CM247']")):
+                    if spec and spec[0] in b_mass:
+                        continue
+                    for obj_, lvl_ in ((b, "block"), (comps[0], "component")):
+                        m_none = float(obj_.getMass(spec))
+                        if m_none != 0.0:
+                            self.fail("C02.additivity", f"step {k}: {lvl_} getMass({label}) = {m_none}; the selection names nothing that is present", what="empty-selection", level=lvl_)
                 tot = float(b.getMass())
                 if not rel(tot, sum(b_mass.values())):
                     self.fail("C02.additivity", f"step {k}: block total mass {tot} != sum over nuclides {sum(b_mass.values())}", what="total", level="block")
@@ -367,6 +378,17 @@ class Runner:
                 self.fail("C02.readback", f"step {k}: setNumberDensity({st['which']}, 1e-4) at component level reads back {got}", what="value", op="setNumberDensity", level="component")
             self.probe("dummy_nuclide_present")
             self.sig.append(("component", "dump"))
+            return True
+        if st["op"] == "rmblock":
+            # a block is taken out of the middle of an assembly (the stack is shorter from then on)
+            asms = [a for a in self.core if len(a) >= 3]
+            if not asms:
+                return False
+            a = sorted(asms, key=lambda x: tuple(int(v) for v in x.spatialLocator.getCompleteIndices()[:2]))[st["idx"] % len(asms)]
+            a.getVolume()
+            a.remove(list(a)[1 + st["idx"] % (len(a) - 2)])
+            self.probe("block_taken_out_of_an_assembly")
+            self.sig.append(("assembly", "rmblock"))
             return True
         if st["op"] == "takeout":
             # an assembly leaves the core (its blocks are whole blocks from then on)
